@@ -136,6 +136,17 @@ Definition secp256k1 : curve :=
     55066263022277343669578718895168534326250603453777594175500187360389116729240
     32670510020758816978083085130507043184471273380659243275938904335757337482424.
 
+(* NIST P-256: not in the library's registry; applications may register further curves (tss.RegisterCurve), and the
+   protocol code takes the curve from its parameters, so the models are run on a third curve too *)
+Definition p256 : curve :=
+  mkCurve Weier
+    115792089210356248762697446949407573530086143415290314195533631308867097853951
+    115792089210356248762697446949407573530086143415290314195533631308867097853948
+    41058363725152142129326129780047268409114441015993725554835256314039467401291
+    115792089210356248762697446949407573529996955224135760342422259061068512044369
+    48439561293906451759052585252797914202762949526041747995844080717082404635286
+    36134250956749795798585127919587881956611106672985015071877198253568414405109.
+
 Definition ed25519 : curve :=
   mkCurve Edw
     57896044618658097711785492504343953926634992332820282019728792003956564819949
